@@ -33,14 +33,14 @@
    getMass("CH3") the reverse lookup of a tiny mass returns "CH3".               *)
 EXTENDS Integers, Sequences, FiniteSets, TLC, Json
 
-CONSTANTS Known, Unknown, Calls, Depth, InsertOnMiss, Emit
+CONSTANTS Known, KnownFull, Unknown, Calls, Depth, InsertOnMiss, Emit
 
 VARIABLES tabs, seen, h
 vars == <<tabs, seen, h>>
 
 Tables == {"Mass", "NucCrg", "EleNum", "EleFull", "EleShort", "VdWChelpG", "VdWMK", "Polar", "EleName", "CovRad"}
-\* EleShort is keyed by FULL names ("CARBON"), none of which is in the call alphabet
-Tabs0 == [t \in Tables |-> IF t = "EleShort" THEN {} ELSE Known]
+\* EleShort is keyed by FULL names ("CARBON": KnownFull), every other table by symbol / number (Known)
+Tabs0 == [t \in Tables |-> IF t = "EleShort" THEN KnownFull ELSE Known]
 
 \* which table a lookup reads (and, with InsertOnMiss, pollutes)
 TableOf == [getMass |-> "Mass", getNucCrg |-> "NucCrg", getEleNum |-> "EleNum", getEleFull |-> "EleFull",
@@ -61,7 +61,7 @@ Polluted(tb) == tb["Mass"] \ Known
 Answer(tb, c) ==
   CASE c.m = "getCovRadBadUnit" -> "throw"
     [] c.m \in Lookups -> IF c.n \in tb[TableOf[c.m]]
-                          THEN (IF c.n \in Known THEN "found" ELSE "default")  \* a polluted entry answers
+                          THEN (IF c.n \in Known \cup KnownFull THEN "found" ELSE "default")  \* a polluted entry answers
                           ELSE "throw"
     [] c.m = "isEleShort" -> IF c.n \in tb["EleFull"] THEN "true" ELSE "false"
     [] c.m = "isEleFull" -> IF c.n \in tb["EleShort"] THEN "true" ELSE "false"
